@@ -7,7 +7,7 @@ import itertools
 from core import simcase as S
 
 ID = "C01"
-LEAN_MODULES = ["AcnProofs.C01", "AcnProofs.Lemmas.EventCorePilots", "AcnProofs.Lemmas.EventCoreSimFail"]
+LEAN_MODULES = ["AcnProofs.C01", "AcnProofs.Lemmas.EventCorePilots", "AcnProofs.Lemmas.EventCoreSimFail", "AcnProofs.Lemmas.EventCoreStep"]
 DRIVER = "drv_C01"
 REQUIRED_THEOREMS = [
     "Acn.C01.prec_order", "Acn.C01.keyLt_strictWeakOrder", "Acn.C01.cfg0_valid", "Acn.C01.init_Inv",
@@ -20,6 +20,7 @@ REQUIRED_THEOREMS = [
     "Acn.Sim.body_pilots", "Acn.Sim.run_pilots", "Acn.Sim.run_applied_eq_spec",
     "Acn.C01.run_terminates_any_network", "Acn.C01.history_sorted_complete_any_network",
     "Acn.C01.bodyG_chargingNet_eq_body", "Acn.C01.cfg1_validQ", "Acn.Sim.body_core_any", "Acn.C01.sim_runQ_heap_C01",
+    "Acn.Sim.step_noop_of_resolve", "Acn.Sim.step_typeError", "Acn.Sim.stepPass_sets_resolve", "Acn.Sim.steps_stall",
 ]
 BUDGET = {"quick": 1200, "thorough": 15000, "search": 8000}
 TRUSTED = ["CPython heapq: heappop returns a <-minimal entry and keeps the rest (which one among equal "
@@ -125,6 +126,8 @@ def generate(rng, n, tier):
             out.append(c)
         elif r == 9:
             out.append(S.gen_case(rng, real_algos=True, max_sessions=12))
+        elif r == 6 and i % 20 == 6:
+            out.append(S.gen_step_case(rng))
         else:
             out.append(S.gen_case(rng))
     return out
@@ -138,6 +141,8 @@ def search(rng, n):
 
 
 def run_impl(case):
+    if "steps" in case:             # driven through Simulator.step() instead of run()
+        return S.run_impl_steps(case)
     if case.get("resume"):          # crash/resume: run() is called again after it raised
         return S.run_impl_resume(case)
     return S.run_impl(case)
@@ -145,11 +150,13 @@ def run_impl(case):
 
 def model_request(case):
     # the model runs over the transcription of CPython's array heap: exact tie order
+    if "steps" in case:
+        return S.model_request(case)
     return S.model_request(case, resume=bool(case.get("resume")), queue="heap")
 
 
 def compare(case, obs, model):
-    return S.compare(case, obs, model, exact_ties=True)
+    return S.compare(case, obs, model, exact_ties="steps" not in case)
 
 
 # ------------------------------------------------------------------ oracle: C01 stated on the implementation
@@ -162,6 +169,8 @@ PREMISE_ERRORS = ("InvalidRate", "InvalidSchedule", "SchedulerFailed")
 
 
 def in_scope(case):
+    if "steps" in case:
+        return False                 # C01 is about run(); step() is tied by correspondence only
     if case.get("malformed") == "sched_fail" and case.get("resume"):
         return S.is_valid_layout(case)
     return S.is_valid_layout(case) and case.get("malformed") not in SCHED_FAULTS
@@ -250,7 +259,7 @@ def features(case, obs):
          "sessions=" + ("0" if n == 0 else "1-3" if n <= 3 else "4-8" if n <= 8 else "9-25"),
          f"sched={case['sched']['type']}", f"period={case['period']}", f"max_recompute={case['max_recompute']}",
          f"err={obs.get('err')}", f"malformed={case.get('malformed')}",
-         f"resumed={'first' in obs}",
+         f"resumed={'first' in obs}", f"driven_by={'step' if 'steps' in case else 'run'}",
          "back_to_back=" + ("0" if _b2b(case) == 0 else "1-2" if _b2b(case) <= 2 else "3+"),
          "simultaneous=" + ("0" if _simul(case) == 0 else "1-3" if _simul(case) <= 3 else "4+"),
          f"recomputes={min(len(case.get('recomputes', [])), 3)}",
